@@ -129,6 +129,11 @@ func Main(o Options) int {
 		fmt.Printf("UNDECIDED property=%s: cannot load %s: %v\n", o.Property, o.Repo, err)
 		return 2
 	}
+	if os.Getenv("CRSVERIF_DEBUG") != "" {
+		for _, f := range prog.Forwarded {
+			fmt.Println("FORWARDED", f)
+		}
+	}
 	ctx := rules.NewCtx(prog)
 	{
 		var exs []Exemption
@@ -395,6 +400,7 @@ func writeEvidence(o Options, prop *rules.Property, seed int, all []rules.Obliga
 		"functions_analysed":  len(prog.RepoFns),
 		"callgraph_nodes":     len(prog.RepoFns),
 		"callgraph_edges":     g.Edges,
+		"forwarders_inlined":  append([]string{}, prog.Forwarded...),
 		"exhaustive":          true,
 		"trusted_base":        prop.TrustedBase,
 	}
